@@ -16,8 +16,17 @@
 #include "src/main.h"
 #include "lib/efuns/replace_program.h"
 
-extern void verif_tick (void);
 extern int heart_beat_flag;
+
+extern object_t *verif_restrict_destruct (void);	/* existing accessor (NEOLITH_VERIF) */
+
+/* between top-level operations restrict_destruct must be 0: it is set only while a move_or_destruct() apply runs and every
+   way out (return, error) puts it back.  A left-over value makes later destructs fail: reported as an unexpected line. */
+static void c11_check_restrict (void)
+{
+  if (verif_restrict_destruct ())
+    vh_out ("restrict_destruct-left-set");
+}
 
 static long c11_ticks = 0;
 static int c11_ready = 0;
@@ -97,6 +106,7 @@ static void c11_do (char *oid, char *op)
     }
   if (vh_apply_str (ob, "do_op", 1, a, 0, 0) == 1)
     vh_out ("r %s do_op !err", oid);
+  c11_check_restrict ();
 }
 
 /* harness-level id of an object (through the LPC registry) */
@@ -128,34 +138,95 @@ static const char *c11_oid_of (object_t * ob)
   return buf;
 }
 
+/* ---- one `tick` = one pass of the REAL backend() loop -----------------------------------------------------------------
+ * backend() is entered anew for every tick (its start-up code: clear_state(), save_context(), one call_heart_beat() with
+ * timer_flags = 0 - no round, see lemma startup_call_absorbed), then the loop runs: eval_cost reset,
+ * remove_destructed_objects() [wrapped at link level only to PRINT the pending program swaps], do_comm_polling() [wrapped:
+ * the poll point; the first one of a tick delivers the timer tick exactly as heartbeat_timer_callback() does and installs
+ * the configured timer_flags], `if (HEART_BEAT_FLAG()) call_heart_beat ()`, the cycle hook, which leaves the loop.
+ * An uncaught error in a heart_beat longjmps to backend()'s own recovery point (restore_context) and the loop goes round
+ * again: that second pass (no tick pending) ends at the hook.  Nothing of the recovery is reproduced by the harness. */
+extern int (*verif_backend_cycle_hook) (void);
+extern void backend (void);
+void __real_remove_destructed_objects (void);
+
+static int c11_tflags = TIMER_FLAG_HEARTBEAT;
+static int c11_polls = 0, c11_rdo = 0, c11_in_tick = 0;
+
+void __wrap_remove_destructed_objects (void)
+{
+  replace_ob_t *r;
+  if (c11_in_tick)
+    {
+      if (++c11_rdo >= 2)
+        vh_out ("tickabort");	/* the loop is at its top again without having reached the hook: the pass was left by an error */
+      for (r = obj_list_replace; r; r = r->next)
+        if (!(r->ob->flags & O_DESTRUCTED))
+          vh_out ("rpdone %s", c11_oid_of (r->ob));
+    }
+  __real_remove_destructed_objects ();
+}
+
+#define C11_MAXPASS 5		/* further passes with a round inside one `tick` (mirrored by the model: morePasses) */
+static int c11_round_in_pass = 0;
+
+int __wrap_do_comm_polling (struct timeval *timeout)
+{
+  (void) timeout;
+  if (!c11_in_tick)
+    return 0;
+  c11_round_in_pass = 0;
+  if (++c11_polls == 1)
+    {
+      MAIN_OPTION (timer_flags) = c11_tflags;
+      heart_beat_flag = 1;	/* the timer tick: what heartbeat_timer_callback() stores */
+    }
+  else if (heart_beat_flag && c11_polls >= C11_MAXPASS + 2)
+    {
+      /* the (emulated) timer fired during every abandoned round so far: the harness stops delivering ticks here */
+      heart_beat_flag = 0;
+      vh_out ("passlimit");
+    }
+  if (heart_beat_flag)
+    {
+      /* backend() is about to call call_heart_beat(); the harness echoes the configuration it set itself: without
+         TIMER_FLAG_HEARTBEAT no round is expected */
+      c11_round_in_pass = 1;
+      if (c11_tflags & TIMER_FLAG_HEARTBEAT)
+        vh_out ("tickbegin");
+      else
+        vh_out ("tickbegin off");
+    }
+  return 0;
+}
+
+static int c11_hook (void)
+{
+  return 1;
+}
+
 static void c11_tick (void)
 {
-  error_context_t econ;
-  replace_ob_t *r;
   c11_ticks++;
-  /* top of the backend() loop: remove_destructed_objects() swaps the programs queued by replace_program() */
-  current_interactive = 0;
-  eval_cost = CONFIG_INT (__MAX_EVAL_COST__);
-  for (r = obj_list_replace; r; r = r->next)
-    if (!(r->ob->flags & O_DESTRUCTED))
-      vh_out ("rpdone %s", c11_oid_of (r->ob));
-  remove_destructed_objects ();
-  /* the harness echoes the configuration it set itself: without TIMER_FLAG_HEARTBEAT no round is expected */
-  if (MAIN_OPTION (timer_flags) & TIMER_FLAG_HEARTBEAT)
-    vh_out ("tickbegin");
-  else
-    vh_out ("tickbegin off");
-  save_context (&econ);
-  if (setjmp (econ.context))
-    {
-      restore_context (&econ);
-      pop_context (&econ);
-      vh_out ("tickabort");
-      return;
-    }
-  verif_tick ();
-  pop_context (&econ);
+  c11_polls = c11_rdo = 0;
+  external_port[0].port = 0;	/* no listening socket */
+  MAIN_OPTION (console_mode) = 0;
+  MAIN_OPTION (timer_flags) = 0;	/* no timer thread; the start-up call_heart_beat() runs no round */
+  verif_backend_cycle_hook = c11_hook;
+  c11_in_tick = 1;
+  /* backend()'s start-up call_heart_beat() runs while timer_flags is still 0: a tick without round (echoed here, the
+     model executes it: heart_beat_flag = 0, num_hb_to_do = num_hb_objs, current_heart_beat = 0) */
+  vh_out ("tickbegin off");
   vh_out ("tickend");
+  backend ();
+  c11_in_tick = 0;
+  verif_backend_cycle_hook = 0;
+  MAIN_OPTION (timer_flags) = c11_tflags;
+  if (c11_round_in_pass)
+    vh_out ("tickend");		/* the pass that reached the hook had called call_heart_beat() */
+  /* command_giver after the pass (cleared after every heart_beat call, restored by restore_context after an error) */
+  vh_out ("cg %s", command_giver ? c11_oid_of (command_giver) : "-");
+  c11_check_restrict ();
 }
 
 static int c11_cmd (char *line)
@@ -172,7 +243,7 @@ static int c11_cmd (char *line)
       int n = atoi (line + 7);
       if (n < 0 || n > 7)
         return 0;
-      MAIN_OPTION (timer_flags) = n;
+      MAIN_OPTION (timer_flags) = c11_tflags = n;
       vh_out ("tflags %d", n);
       return 1;
     }
